@@ -91,8 +91,36 @@ pub enum ReadOut {
     },
 }
 
+/// Objects the writer creates while a value is written back (e.g. the lookup stream of an Indexed colour space) get fresh
+/// numbers in the scratch store, in the iteration order of the library's hash maps: the numbers mean nothing. The scratch
+/// store is pre-filled so that its numbers lie above every number of the document, and references into it are replaced by
+/// the content of the object they designate.
+const SCRATCH_BASE: u64 = 400;
+fn scratch_store() -> super::c15_gen::St {
+    use pdf::object::Updater;
+    let mut up = new_store();
+    for _ in 0..SCRATCH_BASE { let _ = up.create(Primitive::Null); }
+    up
+}
+fn expand_created(p: &Primitive, up: &super::c15_gen::St, depth: usize) -> Primitive {
+    match p {
+        Primitive::Reference(r) if r.id >= SCRATCH_BASE && depth < 6 => {
+            let mut d = Dictionary::new();
+            match up.resolver().resolve(*r) {
+                Ok(Primitive::Stream(s)) => { d.insert("CreatedStream", expand_created(&Primitive::Dictionary(s.info.clone()), up, depth + 1)); }
+                Ok(o) => { d.insert("CreatedObject", expand_created(&o, up, depth + 1)); }
+                Err(_) => { d.insert("CreatedObjectUnreadable", Primitive::Integer(1)); }
+            }
+            Primitive::Dictionary(d)
+        }
+        Primitive::Array(a) => Primitive::Array(a.iter().map(|x| expand_created(x, up, depth + 1)).collect()),
+        Primitive::Dictionary(d) => { let mut n = Dictionary::new(); for (k, x) in d.iter() { n.insert(k.clone(), expand_created(x, up, depth + 1)); } Primitive::Dictionary(n) }
+        other => other.clone(),
+    }
+}
+
 fn finish<T: Observe>(v: &T, res: &impl Resolve, lazy_key: Option<&str>) -> ReadOut {
-    let dict = match guard(|| { let mut up = new_store(); v.observe(&mut up) }) {
+    let dict = match guard(|| { let mut up = scratch_store(); v.observe(&mut up).map(|d| match expand_created(&Primitive::Dictionary(d), &up, 0) { Primitive::Dictionary(d) => d, _ => unreachable!() }) }) {
         Ok(Ok(d)) => Ok(d),
         Ok(Err(e)) => Err(format!("write-back error: {}", e)),
         Err(p) => Err(format!("write-back panic: {}", p.describe())),
